@@ -121,6 +121,14 @@ CHECKS = {
                  "savetxt/loadtxt over fmt/delimiter/header/comments x StringIO/BytesIO/paths run for real; the header "
                  "line written by the implementation is compared with the Lean codec; plain files must load as arrays.",
          "note": BASE_NOTE + " The pickle byte format, copy's C paths and numpy's number formatting/parsing are exercised, not modelled."},
+ "C16": {"ref": "5/C16", "technique": "Lean 4 proof at token level (printed terms = permutation of the non-zero terms, elision faithful, order = selected monomial order) + text-level correspondence with an independent reader",
+         "text": "printed_terms_den / tokens_den: for every display setting the printed terms are a permutation of the stored "
+                 "terms without the zero ones, so reading the tokens back gives the polynomial; elision_faithful (1/-1 elided "
+                 "only in front of a monomial); printed_order (order follows the selected monomial order). `_partial`: the "
+                 "theorem stops at tokens; that the *text* parses back is checked by an independent recursive-descent reader "
+                 "on str(p) and repr(p) for all 8 display orders x exponent/multiply signs x int/+-1/float/complex/bool "
+                 "coefficients, and str(p) must equal the Lean printer's rendering; to_sympy round trip for 0-d polynomials.",
+         "note": BASE_NOTE + " str() of numpy scalars is a parameter of the printer model (the harness passes numpy's own text of every coefficient); numpy print options at defaults."},
 }
 CLAIMED = set(CHECKS)
 NOT_APPLICABLE = {f"C{i:02d}": "check under construction in this session (will be claimed once built)"
